@@ -130,7 +130,8 @@ def dedupNames (cols : List ColumnInfo) : List ColumnInfo :=
   cols.foldl (fun acc c => if acc.any (·.name == c.name) then acc else acc ++ [c]) []
 
 def genColumn : Gen ColumnInfo := do
-  let oid ← Gen.oneOf typeOids
+  -- json / jsonb columns (whose cells must be JSON text whatever their kind) one time in five
+  let oid ← (do if ← Gen.prob 1 5 then Gen.oneOf [(114 : Int), 3802] else Gen.oneOf typeOids)
   return { name := ← genName, type := typeNameOf oid, typID := oid }
 
 def genRow (cols : List ColumnInfo) (depth : Nat) : Gen Row := do
@@ -163,11 +164,11 @@ def genTable (size : Nat) : Gen TableDump := do
     return { name := ← genName, columns := cols, rows, rowCount := rc }
 
 def genDb (size : Nat) : Gen DatabaseDump := do
-  let nt ← Gen.range 0 (1 + size / 2)
+  let nt ← (do if ← Gen.prob 1 8 then pure 0 else Gen.range 1 (1 + size / 2))
   return { oid := ← Gen.oneOf [0, 1, 5, 16384, 4294967295], name := ← genName, tables := ← Gen.listOf nt (genTable size) }
 
 def genDump (size : Nat) : Gen DumpResult := do
-  let nd ← Gen.oneOf [1, 1, 1, 2, 0]
+  let nd ← Gen.oneOf [1, 1, 1, 1, 1, 2, 2, 0]
   Gen.listOf nd (genDb size)
 
 /-! ### a dump as one GoVal: [[oid, name, [[name, rowCount, [[name, type, typID]…], [row…]]…]]…] -/
